@@ -3,11 +3,13 @@
 # run the named quick checks against it.  Every check must stay silent (exit 0, no VIOLATION line).
 # env: W = worker processes per check (default 5), TIER (default quick)
 patch=$1; shift
+# base commit the patch was written against: <out dir>/BASE, else /tmp/seedwork/BASE, else HEAD
+BASE=$(cat "$(dirname "$patch")/../BASE" 2>/dev/null || cat /tmp/seedwork/BASE 2>/dev/null || echo HEAD)
 wt=/tmp/seedwork/benwt_$$
-git -C /repo worktree add --detach -f $wt $(cat /tmp/seedwork/BASE 2>/dev/null || echo HEAD) >/dev/null 2>&1 || exit 2
+git -C /repo worktree add --detach -f $wt $BASE >/dev/null 2>&1 || exit 2
 git -C $wt apply "$patch" || { echo "PATCH-DOES-NOT-APPLY $patch"; git -C /repo worktree remove --force $wt; exit 2; }
 # fixes committed to /repo after the agents' base commit are carried over (skipped with a note if they do not apply)
-if [ -f /tmp/seedwork/BASE ]; then git -C /repo diff $(cat /tmp/seedwork/BASE) HEAD -- src | git -C $wt apply 2>/dev/null || echo "NOTE: later fixes do not apply on top of this patch; running on the base commit"; fi
+if [ "$BASE" != HEAD ] && ! git -C /repo diff --quiet $BASE HEAD -- src; then git -C /repo diff $BASE HEAD -- src | git -C $wt apply 2>/dev/null || echo "NOTE: later fixes do not apply on top of this patch; running on the base commit"; fi
 # run from a private snapshot of the committed machinery, so that edits in /verif do not reach a running check
 snap=/tmp/seedwork/vsnap_$$; rm -rf $snap; mkdir -p $snap; git -C /verif archive HEAD check mc known_findings.json properties.jsonl | tar -x -C $snap; mkdir -p $snap/out/logs /verif/out/logs; cd $snap
 tag=$(echo "$patch" | tr '/' '_' | sed 's/_tmp_seedwork_//; s/_patch.diff//')
